@@ -611,6 +611,7 @@ def interrupts(ctx, r, bd):
 OSMOCON_C = os.path.join(common.REPO, "src/host/osmocon/osmocon.c")
 GLUE_FUNCS = ("hdlc_send_to_phone", "handle_sercomm_write", "hdlc_tool_cb")
 TOOL_DLCIS = [1, 2, 3, 5, 9, 10, 31, 64, 127]
+TOOL_CONNS = {1: 1, 2: 2, 3: 3, 5: 1, 9: 2, 10: 1, 31: 1, 64: 3, 127: 1}      # tools connected to each DLCI's socket
 NO_TOOL_DLCIS = [6, 7, 100]
 
 
@@ -677,7 +678,7 @@ def osmocon_glue(ctx, r, bd):
 		cases.append(ops)
 	scripts = [("N %d\n" % i + "".join("T %d %s\n" % (op[1], hexs(op[2])) if op[0] == "T" else "W\n" for op in ops)).encode()
 		for i, ops in enumerate(cases)]
-	outputs, crashes = cbuild.run_cases(binary, scripts, args = [str(d) for d in TOOL_DLCIS])
+	outputs, crashes = cbuild.run_cases(binary, scripts, args = ["%d:%d" % (d, TOOL_CONNS[d]) for d in TOOL_DLCIS])
 	for c in crashes:
 		ctx.violation("osmocon-glue", {"script": scripts[c[0]].decode()[:6000], "stderr": c[2][-1500:]},
 			what = "osmocon's sercomm glue dies (rc=%s): %s" % (c[1], c[3] or "no sanitizer report"))
@@ -710,7 +711,8 @@ def osmocon_glue(ctx, r, bd):
 					wire += unhex(l[2:])
 				elif l.startswith("t "):
 					p = l.split(" ")
-					tool[int(p[1])] = tool.get(int(p[1]), b"") + unhex(p[2])
+					key = (int(p[1]), int(p[2]))
+					tool[key] = tool.get(key, b"") + unhex(p[3])
 				elif l.startswith("e "):
 					if l != "e 0":
 						err = "writing is still enabled after the queue was drained"
@@ -729,14 +731,17 @@ def osmocon_glue(ctx, r, bd):
 				break
 			for d in TOOL_DLCIS:
 				want = b"".join(len(p).to_bytes(2, "big") + p for p in queues.get(d, []))
-				if tool.get(d, b"") != want:
-					err = "tool connection of DLCI %d received %d octets, expected %d (16-bit length prefix + payload per message)" % (
-						d, len(tool.get(d, b"")), len(want))
-					w["received"] = tool.get(d, b"")[:200].hex()
+				for k in range(TOOL_CONNS[d]):
+					if tool.get((d, k), b"") != want:
+						err = "tool connection %d of %d on DLCI %d received %d octets, expected %d (16-bit length prefix + payload per message)" % (
+							k + 1, TOOL_CONNS[d], d, len(tool.get((d, k), b"")), len(want))
+						w["received"] = tool.get((d, k), b"")[:200].hex()
+						break
+				if err:
 					break
 			if err:
 				break
-			if any(d not in TOOL_DLCIS for d in tool):
+			if any(d not in TOOL_DLCIS or k >= TOOL_CONNS[d] for (d, k) in tool):
 				err = "a tool connection received something for a DLCI it does not serve"
 				break
 			queues = {}
